@@ -3,3 +3,7 @@ import PqVerif.Props.C01
 #print axioms Pq.C01.passive_amplitude_formula
 #print axioms Pq.C01.gauss_passive_is_congruence
 #print axioms Pq.C01.number_conserving_block_structure
+#print axioms Pq.C01.displacement_loop
+#print axioms Pq.C01.squeezing_loop
+#print axioms Pq.C01.displacement_heisenberg
+#print axioms Pq.C01.squeezing_heisenberg
